@@ -833,6 +833,12 @@ def rule_echo(run):
                      'from the SIMUL handler, the first section), and read() never re-evaluates it: a file written with echoed extra-precision '
                      'sections is read back as not echoed, and the next write drops ROCKS/ELEME/CONNE/GENER from the main file'
                      % (m.short, norm(st)[:90]), where=m.where(st))
+    elif late and any(isinstance(c, ast.Call) and isinstance(c.func, ast.Name) and c.func.id == 'all' for c in ast.walk(late[-1].value)):
+        # the writer leaves a section out of the main file for reasons of its own besides the echo flag (ELEME / CONNE go to a
+        # separate MESH file), so "echoed" is "some extra-precision section is also in the main file", not "all of them are"
+        run.violated(key, 'the echo flag is `%s`: universal over the extra-precision sections. write() keeps the mesh sections out of the main '
+                     'file when the mesh is in a separate file, so an echoed data file with a separate mesh is read back as not echoed and '
+                     'the next write drops the other sections from the main file' % norm(late[-1].value)[:110], where=rd.where(late[-1]))
     elif late: run.ok(key, 're-evaluated after the section loop: %s' % norm(late[0])[:90], where=rd.where(late[0]))
     else: run.ok(key, 'no handler decides the echo flag from the partial section list', where=rd.where())
 
@@ -849,7 +855,40 @@ def rule_memo(run):
     memo_rule(run, ['t2data'])
 
 
+def rule_gentab(run):
+    run.rule('GENTAB', 'the generator line is followed by time / rate / enthalpy tables for the same generator types in write_generator() as '
+             'read_generator() expects: the type tests standing next to `ltab` in the two functions are the same set', floor=1)
+    prog = run.prog
+    def type_tests(fi):
+        out = None
+        for n in walk_no_nested(fi.node):
+            if not isinstance(n, ast.If): continue
+            names = set(x.id for x in ast.walk(n.test) if isinstance(x, ast.Name)) | set(x.attr for x in ast.walk(n.test) if isinstance(x, ast.Attribute))
+            if 'ltab' not in names: continue
+            tests = set()
+            for c in ast.walk(n.test):
+                if isinstance(c, ast.Compare) and len(c.ops) == 1 and isinstance(c.comparators[0], (ast.Constant, ast.List, ast.Tuple, ast.Set)) and \
+                   ('type' in norm(c.left).lower()):
+                    tests.add((type(c.ops[0]).__name__, norm(c.comparators[0])))
+                if isinstance(c, ast.Call) and isinstance(c.func, ast.Attribute) and c.func.attr in ('startswith', 'endswith') and 'type' in norm(c.func.value).lower():
+                    neg = any(isinstance(u, ast.UnaryOp) and isinstance(u.op, ast.Not) and u.operand is c for u in ast.walk(n.test))
+                    tests.add((('not ' if neg else '') + c.func.attr, norm(c.args[0]) if c.args else ''))
+            out = (n, tests) if out is None else out
+        return out
+    rd, wr = prog.func(T + 'read_generator'), prog.func(T + 'write_generator')
+    a, b = type_tests(rd), type_tests(wr)
+    key = 't2data.read_generator / write_generator :: tables follow for the same generator types'
+    if a is None or b is None:
+        run.unknown(key, 'no `ltab` test found in %s' % (rd.short if a is None else wr.short), where=(rd if a is None else wr).where()); return
+    if a[1] == b[1]: run.ok(key, sorted(a[1]), where=wr.where(b[0]))
+    else:
+        run.violated(key, 'read_generator() expects tables unless %s, write_generator() writes them unless %s: for a generator type on which the '
+                     'two disagree the table lines are missing from (or surplus in) the file while `ltab` still announces them, and the reader '
+                     'takes the following records for table lines' % (sorted(a[1]), sorted(b[1])), where=wr.where(b[0]))
+
+
 def check(run):
+    run.guarded('GENTAB', rule_gentab)
     run.guarded('MEMO', rule_memo)
     run.guarded('SHARED', rule_shared)
     run.guarded('ECHO', rule_echo)
